@@ -7,7 +7,7 @@
    output for all inputs (it is evaluated on every generated set instead). *)
 From Coq Require Import Permutation.
 From Gopar Require Import Model.Base Model.GF16 Model.Matrix Model.RS16 Model.CRC Model.GoPath Model.FS Model.Par2 Model.Par2Spec
-     Proofs.LinAlg Proofs.Matrix16 Proofs.RS16Facts Proofs.Par2Facts Proofs.Par2Create.
+     Proofs.LinAlg Proofs.Matrix16 Proofs.RS16Facts Proofs.Par2Facts Proofs.Par2Create Proofs.Par2Layout Proofs.Par2Clean.
 Open Scope N_scope.
 
 (* what the writer frames, the reader unframes, whatever follows - for every set id, type and body *)
@@ -48,6 +48,27 @@ Theorem C05_parity : forall d p D L e w,
              0 (seq 0 d).
 Proof. exact parity_is_spec_sum. Qed.
 Print Assumptions C05_parity.
+
+(* END TO END on the model: for EVERY input set that the writer accepts (any names without NUL, any
+   contents, any slice size 4..2^40, any block count, distinct file ids), the files Create writes are
+   read back by the reader: Verify on the resulting directory succeeds, needs no repair, and finds all
+   np recovery blocks - the writer and the reader agree on framing, packet bodies, ids, hashes, slice
+   checksums and volume layout *)
+Theorem C05_create_then_verify_clean : forall md5, (forall x, length (md5 x) = 16%nat) ->
+  forall parPath sz np names datas outs fs0,
+  create_outputs md5 parPath sz np names datas = Ok outs ->
+  (4 <= sz)%nat -> (N.of_nat sz <= MAXSLICE)%N ->
+  Forall (fun nm : bytes => no_nul nm /\ (N.of_nat (length nm) < 2 ^ 32)%N) names ->
+  Forall (fun d : bytes => wf_bytes d /\ (N.of_nat (length d) <= MAXINT)%N) datas ->
+  NoDup (map fi_id (map (fun nd : bytes * bytes => data_file_info md5 sz (fst nd) (snd nd)) (combine names datas))) ->
+  let ix := strip_ext parPath ++ EXT_PAR2 in
+  let fs := apply_writes outs fs0 in
+  (forall name data, In (name, data) (combine names datas) -> fs_lookup fs0 (file_path ix name) = Some data) ->
+  (forall name, In name names -> ~ In (file_path ix name) (map fst outs)) ->
+  (forall q, In q (map fst fs0) -> vol_pattern (strip_ext parPath) q = true -> In q (map fst outs)) ->
+  exists c st, par2_verify md5 ix (io_init fs []) = (Ok c, st) /\ repair_needed c = false /\ c_pusable c = np.
+Proof. exact create_then_verify_clean. Qed.
+Print Assumptions C05_create_then_verify_clean.
 
 (* the constants of the specification-side validator: 2^1, 2^2, 2^4, 2^7, 2^8, 2^11 *)
 Theorem C05_spec_constants : s_consts 100 0 6 = [2; 4; 16; 128; 256; 2048].
